@@ -236,8 +236,8 @@ def tree_sets(tier):
         "d2w2": lambda: jh.labelled_trees(2, 2, exact_depth=2),
         # depth 2, width <= 2, k+1 calls (one call more than children), small trees
         "d2w2r": lambda: jh.labelled_trees(2, 2, exact_depth=2, max_slots=5 if big else 4),
-        "d2w3": lambda: jh.labelled_trees(2, 3, exact_depth=2, max_slots=7 if big else 5),
-        "d3w2": lambda: jh.labelled_trees(3, 2, exact_depth=3, max_slots=7 if big else 5),
+        "d2w3": lambda: jh.labelled_trees(2, 3, exact_depth=2, max_slots=6 if big else 5),
+        "d3w2": lambda: jh.labelled_trees(3, 2, exact_depth=3, max_slots=6 if big else 5),
     }
 
 
@@ -686,7 +686,7 @@ def ob_generic_node(clauses, po_variant=None):
             for c in run.ctors:
                 if c.get("wrong_args"):
                     bad.append(("definition", "constructor did not receive the very data / registry objects"))
-            fp = footprint_violations(run, {("in", "I"), ("set", "I")})
+            fp = footprint_violations(run, {("in", "I"), ("set", "I"), ("get", "I")})
             if fp:
                 undec.append((run.scenario, fp))
             bad = [b for b in bad if b[0] in clauses]
@@ -695,7 +695,10 @@ def ob_generic_node(clauses, po_variant=None):
                               "accepted": "exc" not in ev, "exc": repr(ev.get("exc"))})
         jh.explore(one)
         if fails:
-            f = min(fails, key=lambda f: (len(f["scenario"]["constructor_steps"]), f["n"]))
+            def _rank(f):
+                t = _u_witness_tree(f["scenario"])
+                return (len(f["scenario"]["constructor_steps"]), jh.tree_size(t) if t is not None else 99, f["n"])
+            f = min(fails, key=_rank)
             sc = f["scenario"]
             witness = {"generic_node": {"id": "I", "type": "T"}, "scenario": sc,
                        "observed": [{"clause": c, "what": m} for c, m in f["bad"][:6]],
@@ -723,7 +726,7 @@ def ob_generic_node(clauses, po_variant=None):
         return {"backend": "proxy-exec", "cases": stats["paths"], "paths": stats["paths"],
                 "statement": "generic definition node {id:I,type:T,...}, registry generic, sub-calls = contract of process_object "
                              "(may register any unregistered ids, incl. I), constructor = <=3 actions: clauses %s hold; footprint: "
-                             "dic touched only by `I in dic` and `dic[I] = result`, data read only at id/type, id spelling not inspected"
+                             "dic touched only at key I (`I in dic`, `dic[I]`, `dic[I] = result`), data read only at id/type, id spelling not inspected"
                              % sorted(clauses)}
     return fn
 
@@ -1571,3 +1574,267 @@ def ob_factory(which):
         return {"backend": "concrete", "cases": n, "statement": "json_factory round trip %s: loads to the same type/id and evaluates identically "
                                                                  "to the directly constructed object (bounded, concrete)" % which}
     return fn
+
+
+def ob_sharing_generic():
+    """U: a reference resolved before and after arbitrary contract-conforming registry activity yields one instance"""
+    def fn():
+        u = _utils()
+        stats = {"paths": 0}
+        fails = []
+
+        def one(ch):
+            run = jh.Run(["p"])
+            R = jh.SymId("R", run.log)
+            o = jh.Obj("pre:R")
+            dict.__setitem__(run.dic, R, o)
+            run.pre[R] = o
+            got = []
+            with jh.patched(u.__dict__, get_class=_no_get_class):
+                for rnd in range(3):
+                    got.append(jh.call_sub(run, u.process_object, ("r", R), R, (rnd,)))
+                    for j in range(ch.choose(3, "activity")):
+                        with run.log.as_("env"):
+                            try:
+                                po_contract(run, R, ch, u.JSONParseError, 10 * rnd + j)
+                            except u.JSONParseError:
+                                pass
+            stats["paths"] += 1
+            if any(g is not o for g in got) or check_sharing(run) or check_log(run):
+                fails.append([repr(g) for g in got])
+        jh.explore(one)
+        if fails:
+            raise Refuted("references to one id resolved to %s" % fails[0], witness={"observed": fails[:3]}, replay=None, confirmed=None)
+        return {"backend": "proxy-exec", "cases": stats["paths"], "paths": stats["paths"],
+                "statement": "three resolutions of reference R interleaved with any contract-conforming registrations: always the instance registered for R"}
+    return fn
+
+
+# ======================================================================================
+# vacuity guards (must-fail twins) — a twin that is NOT refuted is a checker defect (exit 3)
+# ======================================================================================
+
+class InsertRecheck(jh.ast.NodeTransformer):
+    """insert the proposed re-check before `dic[id_] = obj`"""
+
+    def __init__(self):
+        self.hits = 0
+
+    def visit_Assign(self, node):
+        t = node.targets[0]
+        if isinstance(t, jh.ast.Subscript) and isinstance(t.value, jh.ast.Name) and t.value.id == "dic" \
+                and isinstance(t.slice, jh.ast.Name) and t.slice.id == "id_":
+            self.hits += 1
+            chk = jh.ast.parse("if id_ in dic and dic[id_] is not obj:\n    raise JSONParseError('already exists')").body[0]
+            return [chk, node]
+        return node
+
+
+def _variant(kind):
+    def mk():
+        u = _utils()
+        tr = {"drop_duplicate_check": jh.DropDuplicateCheck, "reference_returns_copy": jh.ReferenceReturnsCopy,
+              "recheck_inserted": InsertRecheck}[kind]()
+        return jh.variant(u.process_object, tr, kind)
+    return mk
+
+
+def must_fail(inner, what, expect_clause=None):
+    def fn():
+        try:
+            inner()
+        except Refuted as e:
+            if expect_clause is not None and expect_clause not in json.dumps(e.witness, default=str) + e.detail:
+                raise RuntimeError("twin '%s' was refuted, but not for clause %s: %s" % (what, expect_clause, e.detail[:300]))
+            return {"backend": "twin", "cases": 1, "trivial": True,
+                    "statement": "must-fail twin (%s) is refuted: %s" % (what, e.detail[:200])}
+        raise RuntimeError("vacuity: must-fail twin '%s' was NOT refuted — the obligation cannot detect this defect" % what)
+    return fn
+
+
+def ob_noop_remove_comments():
+    def inner():
+        n = 0
+        for shape in jh.json_shapes(2, 2, 2):
+            x = jh.json_build(shape)
+            if not _same_json(x, clean_oracle(copy.deepcopy(x))):
+                raise Refuted("identity is not remove_comments", witness={"input": x})
+            n += 1
+    return inner
+
+
+def ob_scan_twin():
+    def inner():
+        import shutil
+        import tempfile
+        d = tempfile.mkdtemp(prefix="c13scan")
+        try:
+            os.makedirs(os.path.join(d, "pkg"))
+            with open(os.path.join(d, "pkg", "m.py"), "w") as f:
+                f.write("class A:\n    @classmethod\n    def from_json(cls, data, dic):\n        o = cls()\n        dic[data['id']] = o\n        return o\n"
+                        "class B:\n    @classmethod\n    def from_json(cls, data, dic):\n        dic.update({'x': 1})\n        d2 = dic\n        helper(dic)\n        return cls()\n"
+                        "class C:\n    @classmethod\n    def from_json(cls, data, dic):\n        try:\n            process_object(data['x'], dic)\n        except Exception:\n            pass\n        return cls()\n")
+            r = jh.frame_scan(os.path.join(d, "pkg"))
+        finally:
+            shutil.rmtree(d, ignore_errors=True)
+        if len(r["flags"]) >= 4 and r["swallowed"]:
+            raise Refuted("scan flags unguarded write, update, alias, unknown callee, swallowed error: %s" % r["flags"], witness=r["flags"])
+    return inner
+
+
+def ob_counts(tier):
+    def fn():
+        counts = {g: sum(1 for _ in gen()) for g, gen in tree_sets(tier).items()}
+        counts["sequences"] = sum(1 for _ in zip(range(1000), sequence_items(tier)))
+        counts["json_shapes"] = len(jh.json_shapes(2, 2, 2))
+        counts["from_json_roots"] = jh.frame_scan(_repo_pkg())["roots"]
+        counts["real_illformed"] = sum(len(v) for v in REAL_ILLFORMED.values())
+        if any(v <= 0 for v in counts.values()):
+            raise RuntimeError("vacuity: empty enumeration %s" % counts)
+        return {"backend": "count", "cases": len(counts), "trivial": True, "counts": counts, "statement": "every enumeration is non-empty: %s" % counts}
+    return fn
+
+
+# ======================================================================================
+# obligations
+# ======================================================================================
+
+def _quiet(fn):
+    """from_json_safe / process_object report every parse error through logging.error: silence it for the run"""
+    def run():
+        import logging
+        old = logging.root.manager.disable
+        logging.disable(logging.CRITICAL)
+        try:
+            return fn()
+        finally:
+            logging.disable(old)
+    return run
+
+
+DEF_CLAUSES = {"definition", "otherwise", "errors", "complete"}
+PO = ["torchtree.core.utils:process_object", "torchtree.core.serializable:JSONSerializable.from_json_safe"]
+
+
+def obligations(tier, seed):
+    obs = []
+
+    def add(name, tag, fn, clause, funcs=PO, timeout=900):
+        obs.append(Ob(name, tag, _quiet(fn), clause=clause, funcs=funcs, timeout=timeout))
+
+    # --- U: generic node / modular
+    add("C13.reference.generic", "U", ob_generic_reference(), "reference")
+    add("C13.definition.generic", "U", ob_generic_node(DEF_CLAUSES), "definition")
+    add("C13.frame.generic", "U", ob_generic_node({"frame", "footprint"}), "frame")
+    add("C13.sharing.generic", "U", ob_sharing_generic(), "sharing")
+    add("C13.otherwise.types", "U", ob_other_types(), "otherwise")
+    add("C13.illformed.missing_keys", "U", ob_missing_keys(), "otherwise")
+    add("C13.footprint.ast", "U", ob_footprint_ast(), "frame", funcs=FUNCS[:3])
+    add("C13.process_objects.modular", "U", ob_process_objects(), "process_objects", funcs=FUNCS[1:2])
+    add("C13.process_object_with_key.modular", "U", ob_with_key(), "process_objects", funcs=FUNCS[2:3])
+    add("C13.from_json_safe.errors", "U", ob_from_json_safe(), "errors", funcs=FUNCS[6:7])
+    add("C13.scan.writes", "U", ob_scan("writes"), "constructor frame", funcs=[])
+    add("C13.scan.swallow", "U", ob_scan("swallow"), "constructor frame", funcs=[])
+    # --- V: enumerated trees, real recursion
+    for g in tree_sets(tier):
+        add("C13.reference.trees[%s]" % g, "V", ob_trees(g, tier, {"reference"}), "reference")
+        add("C13.definition.trees[%s]" % g, "V", ob_trees(g, tier, DEF_CLAUSES), "definition")
+        add("C13.frame.trees[%s]" % g, "V", ob_trees(g, tier, {"frame", "footprint"}), "frame")
+    add("C13.reference.sequences", "V", ob_sequences(tier, {"reference"}), "reference")
+    add("C13.definition.sequences", "V", ob_sequences(tier, DEF_CLAUSES), "definition")
+    add("C13.frame.sequences", "V", ob_sequences(tier, {"frame", "footprint"}), "frame")
+    add("C13.sharing.sequences", "V", ob_sequences(tier, {"sharing"}), "sharing")
+    add("C13.reference.range", "V", ob_range_reference(), "reference")
+    add("C13.get_class.real", "V", ob_get_class(), "errors", funcs=FUNCS[3:4] + PO[:1])
+    rc_bounds = [(1, 3, 3), (2, 2, 2), (3, 1, 1)] + ([(2, 3, 2), (3, 2, 1)] if tier == "thorough" else [])
+    add("C13.remove_comments.enum", "V", ob_remove_comments_enum(rc_bounds), "comments", funcs=FUNCS[4:5])
+    add("C13.remove_comments.node", "V", ob_remove_comments_node(4 if tier == "thorough" else 3), "comments", funcs=FUNCS[4:5])
+    add("C13.expand_plates.enum", "V", ob_expand_plates(tier), "plates", funcs=FUNCS[5:6] + PO[:1])
+    # --- B: real classes, concrete
+    add("C13.frame.real.nested", "B", ob_real_illformed("nested"), "frame")
+    add("C13.frame.real.siblings", "B", ob_real_illformed("siblings"), "frame")
+    add("C13.frame.real.earlier", "B", ob_real_illformed("earlier"), "frame")
+    add("C13.reference.real.dangling", "B", ob_real_illformed("dangling"), "reference")
+    add("C13.sharing.real", "B", ob_real_sharing(), "sharing")
+    add("C13.comments.real", "B", ob_comments_no_effect(), "comments", funcs=FUNCS[4:5])
+    for w in ("Parameter", "Distribution", "Distribution.refs", "DeterministicNormal", "BayesianBridge", "ScaleMixtureNormal"):
+        add("C13.factory[%s]" % w, "B", ob_factory(w), "json_factory", funcs=[])
+    # --- G: vacuity guards
+    drop, cpy, fixd = _variant("drop_duplicate_check"), _variant("reference_returns_copy"), _variant("recheck_inserted")
+    add("C13.vacuity.definition.generic", "G", must_fail(ob_generic_node(DEF_CLAUSES, drop), "duplicate-id test removed / generic node", "definition"), "vacuity")
+    add("C13.vacuity.definition.trees", "G", must_fail(ob_trees("d1w3", tier, DEF_CLAUSES, po_variant=drop), "duplicate-id test removed / trees", "definition"), "vacuity")
+    add("C13.vacuity.reference.trees", "G", must_fail(ob_trees("d1w3", tier, {"reference"}, po_variant=cpy), "reference returns a copy", "reference"), "vacuity")
+    add("C13.vacuity.frame.satisfiable.generic", "G", ob_generic_node({"frame", "footprint"} | DEF_CLAUSES, fixd), "vacuity")
+    add("C13.vacuity.frame.satisfiable.trees", "G", ob_trees("d2w2r", tier, {"frame", "footprint", "reference"} | DEF_CLAUSES, po_variant=fixd), "vacuity")
+    add("C13.vacuity.remove_comments", "G", must_fail(ob_noop_remove_comments(), "remove_comments replaced by a no-op"), "vacuity", funcs=[])
+    add("C13.vacuity.scan", "G", must_fail(ob_scan_twin(), "from_json writing / aliasing the registry, swallowing errors"), "vacuity", funcs=[])
+    add("C13.vacuity.counts", "G", ob_counts(tier), "vacuity", funcs=[])
+    return obs
+
+
+META = {
+    "level": "proof",
+    "explanation":
+        "Claim at proof level (tag U): the registry clauses of process_object / process_objects / process_object_with_key / from_json_safe. "
+        "Structural induction on the specification term t, for every registry dic and every family of constructors obeying the callee contract "
+        "(calls process_object on sub-specifications any number of times in any order, may self-register under its own id after testing it, reads, "
+        "never otherwise writes dic, does not swallow parse errors, returns a fresh object): process_object(t, dic) satisfies the contract "
+        "{reference, definition, frame, errors}. Base case t:str — C13.reference.generic runs the real function on a recording str/dict pair and shows "
+        "the result is old(dic)[t] or JSONParseError with dic identical; the access log shows dic is touched by one read at key t and the spelling of t "
+        "is only inspected by `'{' in t` (range references are enumerated separately, V). t neither str nor dict / without id or type — "
+        "C13.otherwise.types, C13.illformed.missing_keys. Step t:dict — process_object recurses only through the constructor, and constructors only "
+        "call it on strict sub-terms, so the induction hypothesis applies to every recursive call. C13.definition.generic / C13.frame.generic execute "
+        "the real process_object (and the real from_json_safe) on a generic node {id:I,type:T,...} whose constructor performs up to three actions, each "
+        "a recursive call REPLACED BY THE CONTRACT (a stub that returns a fresh/registered object or raises, registering any ids that are unregistered "
+        "at that moment — adversarially including I itself), a guarded self-registration, a dangling direct read, or an own error; all scenarios are "
+        "explored (own id registered before or not, get_class returns / raises its three exception types). Three actions suffice: the access log proves "
+        "process_object touches dic only by `I in dic` and `dic[I] = result` and reads data only at id/type, so its behaviour depends on the registry "
+        "only through who registered I (nobody / a sub-specification / the constructor), and every such state is reached within three actions; "
+        "C13.footprint.ast shows the same footprint syntactically on every path. The per-node postcondition is the contract itself, which closes the "
+        "induction. The constructor contract is justified for all from_json of the repository by the AST frame scan (C13.scan.*). Sharing follows from "
+        "reference (a reference returns the registered instance) and frame (a registered id is never re-bound); C13.sharing.generic checks it directly. "
+        "Cross-validation (V): all trees of depth<=3/width<=2..3 with every id-equality pattern, every subset of ids registered before, every constructor "
+        "call sequence, real recursion, every observed call at every depth checked against the same contract; two-element top-level sequences. "
+        "Not in the proof-level claim: remove_comments / expand_plates are V (bounded shapes; remove_comments additionally modular per node), "
+        "json_factory round trips and real-class specifications are B (concrete).",
+    "bound": "U: unbounded depth/width/ids (generic node, <=3 constructor actions by state saturation). V trees: depth<=3, width<=3, <=5 id occurrences "
+             "(quick) / <=6 (thorough), all equality patterns x registered subsets x call sequences (k or k+1 calls for k children); sequences of 2 "
+             "specifications; range references s{a:b} a,b<=3; JSON shapes (depth,width,dict width) in (1,3,3),(2,2,2),(3,1,1) [+ (2,3,2),(3,2,1) thorough]; "
+             "plates: lists of <=2 (quick) / 3 (thorough) elements. B: 16 ill-formed real specifications, 14 factory round trips.",
+    "exhaustive": False,
+    "trusted_base": [
+        "CPython executes the real functions; dict/str subclasses (vt.jsonheap.RecDict, SymId) are faithful recording proxies "
+        "(no `type(x) is dict/str` test in the functions under contract: they use isinstance)",
+        "assumed contract of get_class (returns a class or raises ModuleNotFoundError/AttributeError/ValueError) — cross-checked on the real get_class by C13.get_class.real",
+        "assumed constructor contract for classes outside the repository (plug-ins); for repository classes it is checked by the AST frame scan, "
+        "which resolves callees by simple name and does not follow `dic` stored into objects (such a store is flagged)",
+        "the AST scan is syntactic: it trusts that names process_object/process_objects/process_object_with_key in a from_json refer to torchtree.core.utils",
+        "vt.jsonheap.explore enumerates all choice sequences of the stubs (fails closed on a budget)",
+    ],
+    "assumptions": [
+        "constructors call process_object only on strict sub-specifications or on freshly synthesised specifications (well-foundedness of the induction)",
+        "constructors do not swallow JSONParseError (scanned: C13.scan.swallow) and return a fresh object",
+        "ids are hashable JSON strings; equality of ids is string equality",
+        "an empty range reference 's{a:a}' and a malformed one are rejected by UnboundLocalError / ValueError, not JSONParseError: recorded, not demanded by the statement "
+        "(it refers to no id); expand_plates with an empty range directly followed by another plate leaves that plate unexpanded (later rejected at load): outside the enumerated domain",
+        "tag G = vacuity guards (must-fail twins on compiled copies of process_object, satisfiability of the frame clause by the copy with the re-check inserted, non-empty enumerations)",
+    ],
+    "rule": "one case = one named obligation (contract clause x generic node | tree group | concrete family); each obligation explores all scenarios / trees of its group; "
+            "non-trivial = executed the real function at least once and compared against the contract",
+}
+
+MANIFEST = {
+    "category": "proof",
+    "text": "The real process_object / process_objects / process_object_with_key / JSONSerializable.from_json_safe are executed on recording "
+            "registry and identifier proxies. A generic definition node whose recursive calls are replaced by the contract of process_object itself "
+            "(adversarially registering any unregistered id, including the node's own) and whose constructor is an adversarial callback is explored "
+            "exhaustively; with the reference base case and the AST frame scan of all 92 from_json this is a structural induction over all "
+            "specifications: references resolve to the one registered instance, a registered id is never re-bound, an id registered at entry is "
+            "rejected before construction, every id gets exactly one object, the only error type is JSONParseError.",
+    "note": "Proof-level claim covers the registry clauses only. Enumerated trees (depth<=3, width<=3, <=5/6 id occurrences, all equality patterns) "
+            "cross-validate with real recursion (V). remove_comments / expand_plates are bounded (V), json_factory round trips and real-class "
+            "specifications are concrete (B) and not counted as proved. Constructor contract assumed for classes outside the repository. "
+            "Malformed / empty range references raise ValueError / UnboundLocalError rather than JSONParseError (recorded, not claimed).",
+    "technique": "sidecar contracts on real functions + recording heap proxies + modular (contract-for-callee) structural induction + "
+                 "exhaustive choice exploration by re-execution + AST frame scan",
+}
